@@ -89,15 +89,18 @@ def ite(c, a, b):
 
 class F:
     """A double interpreted over the reals: value r (Fraction or z3 Real) and flag bad (bool or z3 Bool)."""
-    __slots__ = ("r", "bad")
+    __slots__ = ("r", "bad", "inf")
 
-    def __init__(self, r, bad=False):
+    def __init__(self, r, bad=False, inf=0):
         if isinstance(r, (int, float)) and not isinstance(r, bool):
             r = Fraction(r)
         self.r = r
         self.bad = bad
+        self.inf = inf      # +1 / -1: the constant +-infinity (only Min/Max use it; arithmetic on it is not modelled)
 
     def __repr__(self):
+        if self.inf:
+            return "F(%sinf)" % ("+" if self.inf > 0 else "-")
         return "F(%s%s)" % (self.r, "" if self.bad is False else ", bad=%s" % self.bad)
 
 
@@ -122,6 +125,8 @@ def real_div(x, y):
 
 
 def f_arith(op, a, b):
+    if a.inf or b.inf:
+        raise Unsupported("arithmetic on an infinite constant")
     bad = b_or(a.bad, b.bad)
     if not is_sym(a.r) and not is_sym(b.r):
         if op == "Add":
@@ -155,6 +160,8 @@ def f_arith(op, a, b):
 
 
 def f_cmp(op, a, b):
+    if a.inf or b.inf:
+        raise Unsupported("comparison with an infinite constant")
     ok = b_not(b_or(a.bad, b.bad))
     if not is_sym(a.r) and not is_sym(b.r):
         r = {"Lt": a.r < b.r, "Le": a.r <= b.r, "Gt": a.r > b.r, "Ge": a.r >= b.r, "Eq": a.r == b.r, "Ne": a.r != b.r}[op]
@@ -164,6 +171,16 @@ def f_cmp(op, a, b):
     if op == "Ne":
         return b_or(b_not(ok), r)   # NaN != anything is true
     return b_and(ok, r)
+
+
+def log_repr(a):
+    if isinstance(a, F) and a.inf:
+        return "F(%sinf)" % ("+" if a.inf > 0 else "-")
+    if isinstance(a, F):
+        return "F(%s|%s)" % (a.r.sexpr() if is_sym(a.r) else a.r, a.bad.sexpr() if is_sym(a.bad) else a.bad)
+    if is_sym(a):
+        return a.sexpr()
+    return repr(a)
 
 
 class Agg:
@@ -217,6 +234,10 @@ VARIANT_DISCR = {"None": 0, "Some": 1, "Ok": 0, "Err": 1, "Less": -1, "Equal": 0
 
 def clone_value(v, memo=None):
     """Copy a value (aggregates are value types); references keep pointing at the same cell unless memo remaps it."""
+    if hasattr(v, "items") and hasattr(v, "pos") and not isinstance(v, (Agg, Enum)):
+        n = type(v)([clone_value(x, memo) for x in v.items])
+        n.pos = v.pos
+        return n
     if isinstance(v, Agg):
         return Agg([clone_value(x, memo) for x in v.fields], v.kind, v.name)
     if isinstance(v, Enum):
@@ -303,6 +324,7 @@ class Machine:
         self._index = None
         self._lin = {}
         self.linear_only = True
+        self.call_log = None     # when a list: every entry into a `::add` function is recorded as (self type, argument terms)
 
     # ---- solver helpers
     def is_linear(self, e):
@@ -367,7 +389,7 @@ class Machine:
     def _build_index(self):
         idx = {}
         for name, f in self.funcs.items():
-            meth = name.rsplit("::", 1)[-1]
+            meth = f.name.rsplit("::", 1)[-1]
             idx.setdefault(meth, []).append(f)
         self._index = idx
 
@@ -389,6 +411,8 @@ class Machine:
             self._build_index()
         if callee in self.funcs:
             return self.funcs[callee]
+        if callee.startswith(("f64::<impl", "core::", "std::", "<f64 as", "<u64 as", "<i64 as", "<usize as", "num_traits::", "Option::", "slice::")):
+            return None      # library code: handled by the models table
         m = re.fullmatch(r"<(.+) as (.+)>::([A-Za-z_0-9]+)", callee)
         if m:
             ty, meth = self._base_type(m.group(1)), m.group(3)
@@ -417,7 +441,7 @@ class Machine:
             rett = self._base_type(f.ret)
             if selft == ty:
                 cands.append(f)
-            elif rett == ty and (not f.params or f.params[0][0] != "_1" or not f.params[0][1].lstrip("&mut ").startswith(("Self",))):
+            elif rett == ty and (not f.params or not f.params[0][1].strip().startswith("&")):
                 # associated function without a self parameter (constructors, hook constructors)
                 if selft is None or selft != ty:
                     cands_ret.append(f)
@@ -457,8 +481,12 @@ class Machine:
             return F(Fraction(m.group(1).replace("_", "")))
         if t in ("f64::NAN", "core::f64::NAN", "NAN", "f64::consts::NAN") or t.endswith("::NAN"):
             return NAN
-        if t in ("f64::INFINITY", "f64::NEG_INFINITY", "f64::MAX", "f64::MIN"):
-            raise Unsupported("infinite constant " + t)
+        if t.endswith("::NEG_INFINITY"):
+            return F(Fraction(0), False, -1)
+        if t.endswith("::INFINITY"):
+            return F(Fraction(0), False, 1)
+        if t in ("f64::MAX", "f64::MIN"):
+            raise Unsupported("constant " + t)
         if t.startswith('"'):
             return ("str", t)
         m = re.search(r"::promoted\[(\d+)\]$", t)
@@ -755,6 +783,8 @@ class Machine:
             fr.cells[loc] = Cell(a)
         st.frames.append(fr)
         self.used_funcs.add(fn.name)
+        if self.call_log is not None and fn.name.endswith("::add") and fn.params:
+            self.call_log.append((self._base_type(fn.params[0][1]), [log_repr(a) for a in args[1:]]))
         return fr
 
     def run(self, st0):
